@@ -340,6 +340,23 @@ static void c7_pagedamage(int kind,long i,long j,long long v){
   }
   free(c7_phys.p); c7_phys=out;
 }
+/* not damage either: the logical stream that page i belongs to gets <v> added to the granule position of every audio page (a link cut out of a longer
+   stream, or an encoder that keeps counting across links: a link's positions need not start at zero) */
+static void c7_granshift(long i,long long v){
+  static c7_seg seg[4096]; int n=c7_segments(&c7_phys,seg,4096),k,np=0,npk=0,have=0; int idx[4096]; ogg_stream_state os; long serial=0;
+  for(k=0;k<n;k++)if(seg[k].ispage)idx[np++]=k;
+  if(np==0)return;
+  i=((i%np)+np)%np; { unsigned char *pg=c7_phys.p+seg[idx[i]].off; serial=(long)(pg[14]|(pg[15]<<8)|(pg[16]<<16)|((unsigned long)pg[17]<<24)); }
+  for(k=0;k<np;k++){
+    unsigned char *pg=c7_phys.p+seg[idx[k]].off; long len=seg[idx[k]].len; long s2=(long)(pg[14]|(pg[15]<<8)|(pg[16]<<16)|((unsigned long)pg[17]<<24)); ogg_page og; ogg_packet op;
+    if(s2!=serial||len<27)continue;
+    og.header=pg; og.header_len=27+pg[26]; og.body=pg+og.header_len; og.body_len=len-og.header_len;
+    if(!have){ ogg_stream_init(&os,(int)serial); have=1; }
+    if(npk>=3){ long long g=0; int b; for(b=7;b>=0;b--)g=(g<<8)|pg[6+b]; if(g!=-1){ g+=v; for(b=0;b<8;b++)pg[6+b]=(unsigned char)((unsigned long long)g>>(8*b)); c7_recrc(pg,len); } }
+    else{ ogg_stream_pagein(&os,&og); while(ogg_stream_packetout(&os,&op)>0)npk++; }
+  }
+  if(have)ogg_stream_clear(&os);
+}
 /* legal re-pagination (not damage): page i is cut inside its first packet — the first v 255-byte segments go to a page of their own that
    completes no packet (granule position -1), the rest follows on a page flagged "continued"; later pages of the stream are renumbered.
    kind 14: i = page index in the file; kind 15: i = link index, the link's first audio page is taken; kind 16: the i-th page that can be split.  Returns 1 if a page was split. */
@@ -471,6 +488,7 @@ static int c07_main(int argc,char **argv){
       c7_damage(atoi(tok[1]),atol(tok[2]),atol(tok[3])); printf("damage bytes=%ld\n",c7_phys.n);
     }else if(!strcmp(op,"pagedamage")&&n>=5){
       if(atoi(tok[1])>=14&&atoi(tok[1])<=16){ int did=c7_pagesplit(atoi(tok[1]),atol(tok[2]),atoll(tok[4])); printf("pagedamage bytes=%ld split=%d\n",c7_phys.n,did); }
+      else if(atoi(tok[1])==23){ c7_granshift(atol(tok[2]),atoll(tok[4])); printf("pagedamage bytes=%ld\n",c7_phys.n); }
       else{ c7_pagedamage(atoi(tok[1]),atol(tok[2]),atol(tok[3]),atoll(tok[4])); printf("pagedamage bytes=%ld\n",c7_phys.n); }
     }else if(!strcmp(op,"mux")&&n>=9){
       mk_params P; memset(&P,0,sizeof P);
